@@ -150,6 +150,16 @@ def apply_model(cur, op, cs):
         return _wrap(lambda: cur.readline(op[1]))
     if k == 'readlines':
         return _wrap(lambda: cur.readlines(op[1]))
+    if k == 'stale_child':
+        # a delimit() child finished by ONE read, the parent moves on by n bytes, the finished child is
+        # touched again: it must stay at its end and take nothing from the parent
+        def f():
+            child = cur.child(op[1])
+            a = child.read(-1)
+            cur.finish_child(child)
+            moved = cur.read(op[2])
+            return (a, moved, b'', b'')
+        return _wrap(f)
     if k == 'delimit':
         child = cur.child(op[1])
         out = []
@@ -189,6 +199,13 @@ def apply_sync(rd, op, cs):
         return _wrap(lambda: rd.readline(op[1]))
     if k == 'readlines':
         return _wrap(lambda: rd.readlines(op[1]))
+    if k == 'stale_child':
+        def f():
+            child = rd.delimit(op[1])
+            a = child.read(-1)
+            moved = rd.read(op[2])
+            return (a, moved, child.read(-1), child.read(1))
+        return _wrap(f)
     if k == 'delimit':
         def f():
             child = rd.delimit(op[1])
@@ -236,6 +253,13 @@ def apply_async(rd, op, cs, mon=None):
             s = AsyncSink()
             run_coro(rd.pipe_until(op[1], s, op[2]))
             return s.buf.getvalue()
+        return _wrap(f)
+    if k == 'stale_child':
+        def f():
+            child = rd.delimit(op[1])
+            a = run_coro(child.read(-1))
+            moved = run_coro(rd.read(op[2]))
+            return (a, moved, run_coro(child.read(-1)), run_coro(child.read(1)))
         return _wrap(f)
     if k == 'delimit':
         def f():
@@ -400,7 +424,8 @@ def op_shapes(delims, cs, for_async):
         ops += [('read_until', d, -1, False), ('read_until', d, -1, True), ('read_until', d, 2, False),
                 ('read_until', d, 1, True), ('pipe_until', d, False), ('pipe_until', d, True)]
     if len(d0) <= cs:
-        ops += [('delimit', d0, (('read', 1),)), ('delimit', d0, (('peek', 1), ('read', -1)))]
+        ops += [('delimit', d0, (('read', 1),)), ('delimit', d0, (('peek', 1), ('read', -1))),
+                ('stale_child', d0, len(d0)), ('stale_child', d0, len(d0) + 1)]
     ops += [('exhaust',), ('pipe',)]
     if for_async:
         ops += [('readall',)]
@@ -454,6 +479,8 @@ def random_case(rng, for_async):
         if r < 0.7:
             return ('pipe_until', d, rng.random() < 0.5)
         if r < 0.8 and depth < 2:
+            if rng.random() < 0.25 and depth == 0:
+                return ('stale_child', d, rng.choice([len(d), len(d) + 1, len(d) + cs, 0]))
             sub = tuple(rop(depth + 1) for _ in range(rng.randint(0, 3)))
             return ('delimit', d, sub)
         if r < 0.85:
@@ -482,11 +509,11 @@ def random_case(rng, for_async):
 
 
 def _has_delimit(history):
-    return any(op[0] == 'delimit' for op in history)
+    return any(op[0] in ('delimit', 'stale_child') for op in history)
 
 
 def nontrivial(history):
-    return any(op[0] in ('read_until', 'pipe_until', 'delimit', 'peek') for op in history) and len(history) >= 1
+    return any(op[0] in ('read_until', 'pipe_until', 'delimit', 'stale_child', 'peek') for op in history) and len(history) >= 1
 
 
 # ------------------------------------------------------------------ run
@@ -697,6 +724,7 @@ def run(rec):
                 rec.sample({'data': data[:40], 'len': len(data), 'chunk_size': cs, 'history': hist})
     rec.floor('mon.sync.op.read_until', 100)
     rec.floor('mon.sync.op.delimit', 20)
+    rec.floor('mon.sync.op.stale_child', 20)
     rec.floor('mon.sync.op.pipe_until', 20)
     rec.floor('sync.history_ended_by_delimiter_error', 5)
     rec.floor('random.sync', 20)
